@@ -111,8 +111,11 @@ contract(
 contract(
     INS, "ImportanceNestedSampler.check_configuration", props=["C17", "C20"],
     returns="Bool",
+    # `min_remove` must be (strictly) less than nlive -- the documented
+    # rule, and what determine_log_likelihood_threshold needs: with
+    # min_remove == size the chosen index is out of range
     raises={"ValueError": "self.min_samples > self.nlive or "
-            "self.min_remove > self.nlive"},
+            "self.min_remove >= self.nlive"},
     ensures=["result == True", "self.min_samples <= self.nlive",
-             "self.min_remove <= self.nlive"],
+             "self.min_remove < self.nlive"],
 )
